@@ -6,6 +6,7 @@ import (
 	"github.com/cuteLittleDevil/go-jt808/protocol/jt808"
 	"github.com/cuteLittleDevil/go-jt808/protocol/model"
 	"log/slog"
+	"slices"
 	"time"
 )
 
@@ -48,9 +49,11 @@ func (p *packageParse) parse(data []byte) ([]*Message, error) {
 	if len(p.timeoutRecord) > 0 {
 		p.deleteTimeoutPackage() // 超时的分包先丢弃 不能再被后到的包补全
 	}
-	for _, msg := range msgs {
-		if completeMsg, ok := p.completePack(msg); ok {
-			msgs = append(msgs, completeMsg)
+	for i := 0; i < len(msgs); i++ {
+		if completeMsg, ok := p.completePack(msgs[i]); ok {
+			// 合并完成的消息紧跟在补全它的分包后面 这样同一次读到的后续消息不会先于它被应答
+			i++
+			msgs = slices.Insert(msgs, i, completeMsg)
 		}
 	}
 	if len(p.timeoutRecord) > 0 {
